@@ -111,6 +111,9 @@ pub struct Model {
     pub docsum: bool,
     /// live string budget with two-byte references (None = three-byte refs)
     pub pool_slots: Option<usize>,
+    /// strings whose 16-bit reference count arrived saturated: one more
+    /// reference needs a second pool entry, which the model does not count
+    pub saturated: Vec<String>,
 }
 
 // ------------------------------------------------------------ schema helpers
@@ -315,6 +318,19 @@ pub fn eval_cond(cond: &Cond, t: &TableM, row: &[Val]) -> bool {
         Cond::And(a, b) => eval_cond(a, t, row) && eval_cond(b, t, row),
         Cond::Or(a, b) => eval_cond(a, t, row) || eval_cond(b, t, row),
         Cond::Not(a) => !eval_cond(a, t, row),
+        Cond::CmpBool(a, op, lit) => {
+            // logical operators and comparisons yield the integers 1 and 0
+            let v = Val::Int(if eval_cond(a, t, row) { 1 } else { 0 });
+            let c = val_cmp(&v, lit);
+            match op {
+                CmpOp::Eq => c == Ordering::Equal,
+                CmpOp::Ne => c != Ordering::Equal,
+                CmpOp::Lt => c == Ordering::Less,
+                CmpOp::Le => c != Ordering::Greater,
+                CmpOp::Gt => c == Ordering::Greater,
+                CmpOp::Ge => c != Ordering::Less,
+            }
+        }
     }
 }
 
@@ -348,6 +364,7 @@ impl Model {
             sig_ex: false,
             docsum: false,
             pool_slots: Some(65535),
+            saturated: Vec::new(),
         };
         let title = match ptype {
             PType::Installer => "Installation Database",
